@@ -37,11 +37,26 @@ def value_cases(maxlen):
             yield "".join(tup)
 
 
+def ladder_cases(top):
+    """long values (every length 2^k - 1, 2^k, 2^k + 1) and long lists (n members, n <= 40) built from text that contains the
+    separators a serialiser might reflow: ', ' / ',' / blank / newline / quote / backslash"""
+    unit = 'ab, c"d\\e,f\ng '
+    for k in range(3, top + 1):
+        for L in (2 ** k - 1, 2 ** k, 2 ** k + 1):
+            yield quote((unit * (L // len(unit) + 1))[:L])
+    for n in range(2, 41):
+        yield ", ".join(quote("m%d, x" % i) for i in range(n))
+        yield ",".join(quote("Doe, John <j%d@example.org>" % i) for i in range(n))
+
+
 def ml_cases(maxlines):
     for n in range(0, maxlines + 1):
         for tup in itertools.product(ML_LINES, repeat=n):
             for eol in ("\n", "\r\n"):
                 yield "text:" + eol + "".join(l + eol for l in tup) + "."
+        if n <= 1:
+            for tup in itertools.product(ML_LINES, repeat=n):
+                yield "TEXT:\n" + "".join(l + "\n" for l in tup) + "."  # the keyword is an ABNF literal: any letter case
 
 
 def e3_task(t):
@@ -52,7 +67,10 @@ def e3_task(t):
     acc = 0
     distinct = set()
     sample = None
-    if kind == "str":
+    if kind == "ladder":
+        name, tmpl = SLOTS[slot_i]
+        gen = ladder_cases(maxn)
+    elif kind == "str":
         name, tmpl = SLOTS[slot_i]
         gen = (quote(v) for v in value_cases(maxn))
     else:
@@ -86,7 +104,7 @@ def e3_task(t):
 def _cls(spelled):
     """character class of a value for signatures"""
     cl = []
-    if spelled.startswith("text:"):
+    if spelled[:5].lower() == "text:":
         cl.append("ml")
         if "\r\n" in spelled:
             cl.append("crlf")
@@ -117,6 +135,7 @@ def run(tier, seed):
     maxlen = 3 if tier == "quick" else 4
     maxlines = 2 if tier == "quick" else 3
     e3 = [("str", i, maxlen) for i in range(len(SLOTS))] + [("ml", i, maxlines) for i in range(len(ML_SLOTS))]
+    e3 += [("ladder", i, 10 if tier == "quick" else 16) for i in range(len(SLOTS))]
     r3 = pool.run_tasks("checks.c04:e3_task", e3)
     n3 = sum(r["n"] for r in r3)
     for r in r3:
